@@ -52,13 +52,16 @@ def pin_env(boundscheck=False):
     env["VF_TREE_HASH"] = th
     env["NUMBA_CACHE_DIR"] = os.path.join(root, th)
     os.makedirs(env["NUMBA_CACHE_DIR"], exist_ok=True)
-    # prune old tree-hash directories (keep the 4 most recent)
+    # prune stale tree-hash directories: only those untouched for 12 h, and never below 48 kept
+    # (several runs against different scratch trees may be alive at once)
     try:
         dirs = sorted((d for d in glob.glob(os.path.join(root, "*")) if os.path.isdir(d)),
                       key=os.path.getmtime, reverse=True)
-        for d in dirs[4:]:
-            if os.path.basename(d).split("-")[0] != th:
+        now = time.time()
+        for d in dirs[48:]:
+            if os.path.basename(d).split("-")[0] != th and now - os.path.getmtime(d) > 12 * 3600:
                 shutil.rmtree(d, ignore_errors=True)
+        os.utime(env["NUMBA_CACHE_DIR"], None)
     except OSError:
         pass
     os.execve(sys.executable, [sys.executable, "-m", "vf.run"] + sys.argv[1:], env)
